@@ -297,6 +297,19 @@ def run_case(ns, mon, case):
                 lr_changed = True
                 kinds.append("lr"); events.append(f"opt.lr = {hp['lr']}")
                 counters["lr_reassigned"] = counters.get("lr_reassigned", 0) + 1
+        elif r < 0.96:
+            # a second optimizer instance over the same parameters (LR sweep, fine-tuning stage): it starts from fresh state
+            kw2 = dict(kw, lr=hp["lr"])
+            try:
+                opt = getattr(ns.optim, kind)(opt_params, **kw2)
+            except Exception as e:
+                viol.append(V(f"{kind}:constructor-raises:second-instance", f"constructing a second optimizer over the same parameters raised {type(e).__name__}", error=str(e)[:200]))
+                break
+            refs = {v: RefOpt(kind, hp, [p.data for p in opt_params], v) for v in variants}
+            alive = set(variants)
+            tracked = [True] * npar
+            kinds.append("new-opt"); events.append("new optimizer instance over the same parameters")
+            counters["second_instances"] = counters.get("second_instances", 0) + 1
         if len(viol) > 3:
             break
     mv = [v for v in mon.drain() if not v["sig"].startswith(("grad-dtype", "release"))]
@@ -307,7 +320,7 @@ def run_case(ns, mon, case):
             seen.add(v["sig"]); vv.append(v)
     key = json.dumps([hp_class(kind, hp), case["dtype"], kinds]) if nontrivial else None
     return {"key": key, "viol": vv, "counters": counters,
-            "cover": {"hp_classes": [hp_class(kind, hp)], "features": [k for k, b in (("step-without-zero_grad", nozero_step), ("freeze", froze), ("lr-reassigned", lr_changed),
+            "cover": {"hp_classes": [hp_class(kind, hp)], "features": [k for k, b in (("step-without-zero_grad", nozero_step), ("freeze", froze), ("lr-reassigned", lr_changed), ("second-optimizer-instance", "new-opt" in kinds),
                                                                                      ("float32", dt == np.float32), ("doc-variant-considered", len(variants) > 1)) if b]},
             "sample": {"case": case, "events": events[:30]}}
 
